@@ -1,6 +1,7 @@
 package main
 
 import (
+	"strconv"
 	"strings"
 
 	"golang.org/x/tools/go/ssa"
@@ -13,6 +14,12 @@ import (
 // it: dependence is over-approximated, so a location that is NOT in the set certainly does not
 // influence the sinks.
 func influenceSet(fn *ssa.Function, sinks []ssa.Value) map[string]bool {
+	return influenceSetOpt(fn, sinks, false)
+}
+
+// influenceSetOpt: with lenSeparately, len(x) records "len(<x>)" and does not count as a use of
+// the contents of x.
+func influenceSetOpt(fn *ssa.Function, sinks []ssa.Value, lenSeparately bool) map[string]bool {
 	out := map[string]bool{}
 	seen := map[ssa.Value]bool{}
 	var work []ssa.Value
@@ -118,6 +125,14 @@ func influenceSet(fn *ssa.Function, sinks []ssa.Value) map[string]bool {
 		case *ssa.UnOp:
 			push(x.X)
 		case *ssa.Call:
+			if l := lenOf(x); l != nil && lenSeparately {
+				if d := descValue(l, 0); strings.HasPrefix(d, "p") {
+					out["len("+d+")"] = true
+				} else {
+					push(l) // length of a local: depends on whatever sized it
+				}
+				continue
+			}
 			for _, a := range x.Call.Args {
 				push(a)
 			}
@@ -134,4 +149,77 @@ func influenceSet(fn *ssa.Function, sinks []ssa.Value) map[string]bool {
 		}
 	}
 	return out
+}
+
+// ivInfluence: influenceSet on the inlined view. Sinks are values of arbitrary frames; what
+// reaches a parameter of an inner frame continues from the argument of its call site.
+func ivInfluence(v *IView, sinks []ivValue, lenSeparately bool) map[string]bool {
+	out := map[string]bool{}
+	byFrame := map[*ivFrame][]ssa.Value{}
+	var order []*ivFrame
+	add := func(fr *ivFrame, val ssa.Value) {
+		if _, ok := byFrame[fr]; !ok {
+			order = append(order, fr)
+		}
+		byFrame[fr] = append(byFrame[fr], val)
+	}
+	for _, s := range sinks {
+		add(s.fr, s.val)
+	}
+	done := map[*ivFrame]int{}
+	for changed := true; changed; {
+		changed = false
+		for i := 0; i < len(order); i++ {
+			fr := order[i]
+			if done[fr] == len(byFrame[fr]) {
+				continue
+			}
+			done[fr] = len(byFrame[fr])
+			changed = true
+			set := influenceSetOpt(fr.fn, byFrame[fr], lenSeparately)
+			if fr.parent == nil {
+				for k := range set {
+					out[k] = true
+				}
+				continue
+			}
+			args := fr.site.Common().Args
+			isMethod := fr.fn.Signature.Recv() != nil
+			for k := range set {
+				isLen := strings.HasPrefix(k, "len(")
+				tok := strings.TrimSuffix(strings.TrimPrefix(k, "len("), ")")
+				// parameter token at the head of the description
+				j := 1
+				for j < len(tok) && (tok[j] == 'r' || (tok[j] >= '0' && tok[j] <= '9')) {
+					j++
+				}
+				head := tok[:j]
+				idx := -1
+				if head == "pr" && isMethod {
+					idx = 0
+				} else if n, err := strconv.Atoi(head[1:]); err == nil {
+					idx = n
+					if isMethod {
+						idx++
+					}
+				}
+				if idx < 0 || idx >= len(args) {
+					continue
+				}
+				if isLen && lenSeparately {
+					// the length of what the caller passed: a slice built by the caller has a length of
+					// its own; keep following the value (its construction decides)
+					add(fr.parent, args[idx])
+					continue
+				}
+				add(fr.parent, args[idx])
+			}
+		}
+	}
+	return out
+}
+
+type ivValue struct {
+	fr  *ivFrame
+	val ssa.Value
 }
